@@ -50,8 +50,8 @@ T = {
  "C14": (True, "model_checking", "explored position graph + complete class F1: purity (dirty evaluator vs fresh), side-swap negation, colour-mirror invariance, bound; all call sequences of length 3 over 24 positions on one evaluator",
          "Every explored state is evaluated on a fresh evaluator, on evaluators that just evaluated very different positions, and on a long-lived per-thread evaluator; the side-swapped twin must score the exact negative and the mirrored twin the same; |score| <= 20000 including 18-queen roots; 13824 three-call sequences on one evaluator equal the fresh results.",
          "Bounded position space; the bound 20000 is this harness's reading of 'well inside the window'.", "3/C14"),
- "C15": (True, "model_checking", "every store sequence up to length L over colliding keys on a fresh real table vs a map model; model state graph (343 states) to fixpoint with every transition replayed on the real table",
-         "All 18^5 (quick) / 18^6 (thorough) store sequences over three keys that agree in their low 40 / low 63 bits, depths 0..2 and two payloads, each on its own fresh TranspositionTable with all four retrieves compared after every step; the abstract state graph is closed (fixpoint) and every one of its transitions is validated on the implementation.",
+ "C15": (True, "model_checking", "every store sequence up to length L over colliding keys on a fresh real table vs a map model; model state graph (1000 states) to fixpoint with every transition replayed on the real table",
+         "All 27^5 (quick) / 27^6 (thorough) store sequences over three keys that agree in their low 40 / low 63 bits, depths 0..2 and three payloads (Exact, Upper, Lower), each on its own fresh TranspositionTable with all four retrieves compared after every step; the abstract state graph is closed (fixpoint) and every one of its transitions is validated on the implementation.",
          "Keys/depths/payloads outside the alphabet are assumed to behave alike.", "3/C15"),
  "C17": (True, "model_checking", "explored graph: generate_quiescence_moves vs the model's tactical set on every not-in-check state; traced move lists of real quiescence nodes",
          "On every explored not-in-check state the quiescence move set must equal {legal captures incl. e.p., promotions, checks incl. discovered}; the move list actually used by real quiescence nodes (trace hook) is checked in both the in-check and not-in-check case.",
